@@ -112,7 +112,7 @@ MStepFlat(st, x) ==
       st2 == [st EXCEPT !.cm = [c \in 1..cfg.nc |-> IF c \in run THEN x[c] ELSE st.cm[c]],
                         !.nm = nin, !.sp = y,
                         !.ad = [n \in 1..cfg.nn |-> st.ad[n] + 1],
-                        !.hist = Append(st.hist, [x |-> x, w |-> st.w])]
+                        !.hist = Append(st.hist, [x |-> x, w |-> st.w, cut |-> FALSE])]
   IN {Out(st2, [t |-> "out", y |-> y, nin |-> nin, cin |-> x, cout |-> cout])}
 
 (***************************************************************************)
@@ -139,7 +139,7 @@ MStepRec(st, x) ==
       y2 == NeurOut(2, n2, st.nm[2], st.ad[2], 1)
       st2 == [st EXCEPT !.cm = <<x[1], latin, fbin>>, !.nm = <<n1, n2>>, !.sp = <<y1, y2>>,
                         !.ad = <<st.ad[1] + 1, st.ad[2] + 1>>, !.fb = y2,
-                        !.hist = Append(st.hist, [x |-> x, w |-> st.w])]
+                        !.hist = Append(st.hist, [x |-> x, w |-> st.w, cut |-> (st.fb = -1 /\ st.hist # <<>>)])]
   IN {Out(st2, [t |-> "out", y |-> <<y1, y2>>, nin |-> <<n1, n2>>,
                 cin |-> <<x[1], latin, fbin>>, cout |-> <<c1, c2, c3>>])}
 
@@ -163,11 +163,16 @@ MClear(st, iter) ==
                           !.hist = <<>>],
                [t |-> "ok"])}
 
+\* RecurrentSerial.clear(submodules=False): only the stored feedback spikes are dropped; connections and neurons
+\* keep their state.  The next step then sees NO feedback spikes (as the first step does).
+MClearFb(st) == {Out([st EXCEPT !.fb = -1], [t |-> "ok"])}
+
 MLearn(st) == {Out([st EXCEPT !.w = st.w + 1], [t |-> "ok"])}
 
 MApplyI(st, o, iter) ==
   CASE o.a = "step" -> MStep(st, o.x)
     [] o.a = "clear" -> MClear(st, iter)
+    [] o.a = "clear_fb" -> MClearFb(st)
     [] o.a = "learn" -> MLearn(st)
 
 MApply(st, o) == MApplyI(st, o, "values")
@@ -207,7 +212,8 @@ ARecAt(cfg, a0, h, t) ==
         IF u = 0 THEN [y1 |-> 0, y2 |-> 0, n1 |-> 0, n2 |-> 0, fbin |-> 0, latin |-> 0, c1 |-> 0, c2 |-> 0, c3 |-> 0]
         ELSE LET p == R[u - 1]
                  w == h[u].w
-                 fbin == (IF u = 1 THEN 0 ELSE p.y2) + Tr(cfg, IT[2])
+                 fbin == (IF u = 1 \/ h[u].cut THEN 0 ELSE p.y2) + Tr(cfg, IT[2])   \* no spikes on the first step, nor
+                                                                                 \* after the feedback was dropped
                  c1 == ConnOut(1, h[u].x[1], IF u = 1 THEN 0 ELSE h[u - 1].x[1], w)
                  c3 == ConnOut(3, fbin, p.fbin, w)
                  n1 == c1 + Tr(cfg, PT[1]) + c3 + Tr(cfg, PT[3])
@@ -239,13 +245,15 @@ A0(st) == [n \in 1..st.cfg.nn |-> st.ad[n] - Len(st.hist)]
 RefinesAtI(st, o, iter) ==
   \A mo \in MApplyI(st, o, iter) :
     CASE o.a = "step" ->
-           LET h == Append(st.hist, [x |-> o.x, w |-> st.w])
+           LET h == Append(st.hist, [x |-> o.x, w |-> st.w,
+                                      cut |-> (st.cfg.kind = "recurrent" /\ st.fb = -1 /\ st.hist # <<>>)])
                e == AbsAt(st.cfg, A0(st), h, Len(h))
            IN /\ mo.ret.t = "out"
               /\ mo.ret.y = e.y /\ mo.ret.nin = e.nin /\ mo.ret.cin = e.cin /\ mo.ret.cout = e.cout
       [] o.a = "clear" ->
            /\ mo.ret.t = "ok"
            /\ mo.st = InitState(st.cfg, st.w, st.ad)
+      [] o.a = "clear_fb" -> mo.ret.t = "ok" /\ mo.st = [st EXCEPT !.fb = -1]
       [] OTHER -> Kept(mo.st).ad = st.ad /\ Dyn(mo.st) = Dyn(st)
 
 RefinesAt(st, o) == RefinesAtI(st, o, "values")
